@@ -247,6 +247,37 @@ func r34FlagTable(c *core.Ctx) {
 			}
 		}
 		c.Check(R, "overwrite-guards-remove/main.initGPKGTarget", v.Pos(), ok, "os.Remove is executed only when the overwrite flag is set", "os.Remove(target) is not guarded by the value of the overwrite flag")
+		// and whenever it is set: with the overwrite test taken as true, no path opens the target without having
+		// passed the removal (no further condition on the path, the file name, …)
+		if ig != nil {
+			removes := effectiveCalls(ig.SSA, "os.Remove", 2)
+			inits := findCalls(ig.SSA, core.ModPath+"/processing/gpkg.TargetGeopackage.Init")
+			okAlways, why := false, "expected one os.Remove and one Init"
+			if len(removes) == 1 && len(inits) == 1 {
+				var guardIf *ssa.If
+				for _, b := range ig.SSA.Blocks {
+					if i := core.BlockIf(b); i != nil && flow[i.Cond] {
+						guardIf = i
+					}
+				}
+				if guardIf != nil {
+					skip, _ := core.Search{Fn: ig.SSA, Target: instrIs(inits[0]), Barrier: instrIs(removes[0].Site), Edge: func(b *ssa.BasicBlock, k int) bool {
+						return !(core.BlockIf(b) == guardIf && k == 1)
+					}}.Run()
+					okAlways, why = !skip, "with the overwrite flag set a path reaches Init without passing os.Remove (a further condition decides whether the old file is removed)"
+					// inside a helper the removal itself is unconditional
+					if okAlways && removes[0].Inner != removes[0].Site {
+						h := removes[0].Inner.Parent()
+						if miss, _ := (core.Search{Fn: h, Target: core.IsReturn, Barrier: instrIs(removes[0].Inner)}).Run(); miss {
+							okAlways, why = false, "the helper "+h.Name()+" can return without calling os.Remove"
+						}
+					}
+				} else {
+					why = "no test of the overwrite flag found in initGPKGTarget"
+				}
+			}
+			c.Check(R, "overwrite-always-removes/main.initGPKGTarget", v.Pos(), okAlways, "with overwrite set every path to Init passes os.Remove(target)", why)
+		}
 	} else {
 		c.Bad(R, "overwrite-guards-remove/main.initGPKGTarget", lit.Pos(), "no read of the overwrite flag found")
 	}
